@@ -189,6 +189,10 @@ func onRuleUpdate(rawResRulesMap map[string][]*Rule) (err error) {
 			}
 		}
 	}()
+	// what this load changes in the rule-in-force table takes effect when its result is published
+	beginRuleInForceEdits()
+	published := false
+	defer func() { endRuleInForceEdits(published) }()
 
 	// ignore invalid rules
 	validResRulesMap := make(map[string][]*Rule, len(rawResRulesMap))
@@ -235,6 +239,7 @@ func onRuleUpdate(rawResRulesMap map[string][]*Rule) (err error) {
 	rebuildRefTcMapLocked()
 	tcMux.Unlock()
 	currentRules = rawResRulesMap
+	published = true
 
 	logging.Debug("[Flow onRuleUpdate] Time statistic(ns) for updating flow rule", "timeCost", util.CurrentTimeNano()-start)
 	logRuleUpdate(validResRulesMap)
@@ -278,6 +283,10 @@ func onResourceRuleUpdate(res string, rawResRules []*Rule) (err error) {
 			}
 		}
 	}()
+	// what this load changes in the rule-in-force table takes effect when its result is published
+	beginRuleInForceEdits()
+	published := false
+	defer func() { endRuleInForceEdits(published) }()
 
 	validResRules := make([]*Rule, 0, len(rawResRules))
 	for _, rule := range rawResRules {
@@ -303,6 +312,7 @@ func onResourceRuleUpdate(res string, rawResRules []*Rule) (err error) {
 	}
 	rebuildRefTcMapLocked()
 	tcMux.Unlock()
+	published = true
 	// keep a copy of the list: the caller may go on using its slice (replace an element and load it
 	// again), and a slice compared with itself always looks unchanged
 	currentRules[res] = append([]*Rule(nil), rawResRules...)
